@@ -62,6 +62,9 @@ func checkLenDifferences(c *core.Ctx, rule string, fns []*ssa.Function) {
 					ord++
 					key := fmt.Sprintf("%s/difference#%d", core.ShortFn(fn), ord)
 					why := nonNegativeDifference(c, in, sub)
+					if why == "" {
+						why = guardedByCallers(c, fn, sub)
+					}
 					c.Check(why != "", rule, key, in.Pos(), "the difference used as a bound cannot be negative: "+why,
 						fmt.Sprintf("%s − %s is used as a slice bound, length or index without anything on the way excluding that it is negative: an input of the right length makes the node panic", describe(sub.X), describe(sub.Y)))
 				}
@@ -204,3 +207,55 @@ func fixedLen(v ssa.Value) (int64, bool) {
 }
 
 var _ = sort.Strings
+
+// guardedByCallers: the padding sits in an unexported helper (encodeSignature(R, S, V)) and the
+// integer whose length is subtracted is one of its parameters: every call of the helper is
+// governed by crypto.ValidateSignatureValues on the argument passed for that parameter.
+func guardedByCallers(c *core.Ctx, fn *ssa.Function, sub *ssa.BinOp) string {
+	if fn.Object() == nil || fn.Object().Exported() {
+		return ""
+	}
+	ka, isK := core.ConstInt(core.Unwrap(sub.X))
+	if !isK || ka < 32 {
+		return ""
+	}
+	idx := -1
+	for i, p := range fn.Params {
+		p := p
+		if core.DependsOn(sub.Y, func(v ssa.Value) bool { return v == ssa.Value(p) }) {
+			idx = i
+		}
+	}
+	if idx < 0 {
+		return ""
+	}
+	n := 0
+	for _, cl := range c.CG().Callers(fn) {
+		for _, s := range core.Sites(cl) {
+			if s.Common.StaticCallee() != fn || idx >= len(s.Common.Args) {
+				continue
+			}
+			n++
+			arg := core.Unwrap(s.Common.Args[idx])
+			ok := false
+			for _, g := range core.GatesBefore(s.Instr) {
+				call, isCall := g.If.Cond.(*ssa.Call)
+				if !isCall || !g.PassTrue || core.CalleeName(&call.Call) != "crypto.ValidateSignatureValues" {
+					continue
+				}
+				for _, a := range call.Call.Args {
+					if core.Unwrap(a) == arg {
+						ok = true
+					}
+				}
+			}
+			if !ok {
+				return ""
+			}
+		}
+	}
+	if n == 0 {
+		return ""
+	}
+	return fmt.Sprintf("every call of %s (%d) passes an integer range-checked by crypto.ValidateSignatureValues", fn.Name(), n)
+}
